@@ -307,6 +307,13 @@ def run(ctx):
             "multi-declarator", "repeated-public", "repeated-protected", "comment-concatenation", "import-list-3", "duplicate"}
     if not need <= feats:
         raise MachineryError("vacuous corpus: missing features %s" % sorted(need - feats))
+    per_action = {}
+    for p in progs:
+        for k, v in p["callbacks"].items():
+            per_action[k] = per_action.get(k, 0) + v
+    missing = [a for a in ACTIONS if not per_action.get(a)]
+    if missing:
+        raise MachineryError("vacuous: listener callbacks never walked by TLC: %s" % missing)
     selftest(progs)
 
     results = par.pmap(_job, progs, procs)
@@ -332,6 +339,7 @@ def run(ctx):
     ctx.extra["code_agrees_with"] = agree
     ctx.extra["mismatches_per_observable"] = per_obs
     ctx.extra["callbacks_walked_by_tlc"] = nev
+    ctx.extra["per_action_coverage"] = per_action
     ctx.extra["asbuilt_model_violates_property_in_tlc"] = {"violated": ra.violated, "ok": asbuilt_violates}
     if not asbuilt_violates:
         ctx.note_drift("as-built switches no longer violate the property in TLC")
